@@ -40,6 +40,17 @@
 (*      "algorithm = reference" for every rune string of the scope         *)
 (*      (ValueSplitsIntoWords), and that each phrase keeps its meaning     *)
 (*      under not / or / and-not / in(...) (PhraseContextsKeepMeaning).    *)
+(*      The palette has the letters at both ends of each case range and    *)
+(*      their non-letter neighbours (A Z a z 0 9 / @ [ ` {, Latin-1 and     *)
+(*      Cyrillic capitals, the Kelvin sign); both parsers must return the  *)
+(*      same case-folded terms.                                            *)
+(*                                                                         *)
+(* (v)  The declared mapping (the list seq.ReadMapping converts): a field  *)
+(*      has one or several types in declaration order; a filter on field f *)
+(*      is read with the type of the untitled (main) entry wherever it     *)
+(*      stands, a filter on f.title with the type of that entry            *)
+(*      (QueryType).  Every semantic case carries one of the declarations  *)
+(*      (DeclNames: single, main first / last / in the middle).            *)
 (*                                                                         *)
 (* Modes (one cfg each): "tree" exhaustive source trees x styles,          *)
 (* "randtree" seeded random trees (-simulate), "gwalk" every sequence over *)
@@ -80,8 +91,35 @@ Bin(o, a, b) == [op |-> o, l |-> a, r |-> b]
 BoolLeaves == {Lit("a", "x"), Lit("b", "x"), Lit("c", "x")}
 RichLeaves == {Lit("a", "x"), Lit("p", "x"), Lit("t", "y"),
                InLeaf("a", <<"x", "y">>), WordsLeaf("t", <<"x", "y">>)}
-\* mapping used for the semantic cases (seq.Mapping built by the driver from this record)
+\* ======================================================================
+\* (v) the declared mapping of the semantic cases
+\* ======================================================================
+\* how the fields are searched (the leaves above are written for these types)
 FieldTypes == [a |-> "keyword", b |-> "keyword", c |-> "keyword", p |-> "path", t |-> "text"]
+FieldNames == <<"a", "b", "c", "p", "t">>
+\* one entry of a field's `types:` list; the entry without a title is the field itself (main), an entry with a
+\* title declares the additional field  name.title  (seq/mapping.go convertMappingWithMultipleTypes keeps the
+\* list in declaration order in MappingTypes.All and the untitled one in MappingTypes.Main)
+Ty(title, typ) == [title |-> title, typ |-> typ]
+\* the second type of a multi-type field: a type of the other tokenizer class
+Twin(typ) == IF typ = "text" THEN Ty("keyword", "keyword") ELSE Ty("text", "text")
+Third(typ) == IF typ = "path" THEN Ty("keyword", "keyword") ELSE Ty("path", "path")
+DeclNames == <<"single", "mainfirst", "mainlast", "mainmid">>
+TypesOf(d, typ) == CASE d = "single"    -> <<Ty("", typ)>>
+                     [] d = "mainfirst" -> <<Ty("", typ), Twin(typ)>>
+                     [] d = "mainlast"  -> <<Twin(typ), Ty("", typ)>>
+                     [] d = "mainmid"   -> <<Twin(typ), Ty("", typ), Third(typ)>>
+\* the declaration as the driver writes it into the mapping file
+DeclOf(d) == [i \in DOMAIN FieldNames |-> [name |-> FieldNames[i], types |-> TypesOf(d, FieldTypes[FieldNames[i]])]]
+\* the reading of a field name in a query: f -> the untitled entry of f, f.title -> that entry; "none" = not declared
+QueryType(decl, fname) ==
+  LET hits == {<<i, j>> \in (DOMAIN decl) \X (1..3) :
+                 /\ j \in DOMAIN decl[i].types
+                 /\ fname = (IF decl[i].types[j].title = "" THEN decl[i].name ELSE decl[i].name \o "." \o decl[i].types[j].title)}
+  IN IF hits = {} THEN "none" ELSE LET h == CHOOSE x \in hits : TRUE IN decl[h[1]].types[h[2]].typ
+\* the order of declaration does not enter the reading: the leaves of sections (i)-(iv) keep their meaning under every declaration
+ASSUME \A di \in DOMAIN DeclNames : \A i \in DOMAIN FieldNames :
+          QueryType(DeclOf(DeclNames[di]), FieldNames[i]) = FieldTypes[FieldNames[i]]
 
 IsLeaf(x) == x.op \in {"lit", "in", "words", "phrase", "kw", "inp"}
 
@@ -122,6 +160,15 @@ Ru(n, c, b, lo, bare) == [n |-> n, c |-> c, b |-> b, lo |-> lo, bare |-> bare]
 Palette == <<
   Ru("x", "w", 1, "x", TRUE),  Ru("y", "w", 1, "y", TRUE),  Ru("7", "w", 1, "7", TRUE),  Ru("_", "w", 1, "_", TRUE),
   Ru("K", "w", 1, "k", TRUE),                                         \* upper case, 1 byte
+  \* the ends of the ASCII letter and digit ranges and the characters next to them
+  Ru("A", "w", 1, "a", TRUE),  Ru("Z", "w", 1, "z", TRUE),  Ru("a", "w", 1, "a", TRUE),  Ru("z", "w", 1, "z", TRUE),
+  Ru("0", "w", 1, "0", TRUE),  Ru("9", "w", 1, "9", TRUE),
+  Ru("/", "s", 1, "/", FALSE),  Ru("@", "s", 1, "@", FALSE),  Ru("[", "s", 1, "[", FALSE),
+  Ru("<BQ>", "s", 1, "<BQ>", FALSE),  Ru("{", "s", 1, "{", FALSE),
+  \* the ends of the Latin-1 and Cyrillic capital ranges; the multiplication sign sits inside the Latin-1 one
+  Ru("<U+00C0>", "w", 2, "<U+00E0>", TRUE),  Ru("<U+00DE>", "w", 2, "<U+00FE>", TRUE),  Ru("<U+00D7>", "s", 2, "<U+00D7>", FALSE),
+  Ru("<U+0410>", "w", 2, "<U+0430>", TRUE),  Ru("<U+042F>", "w", 2, "<U+044F>", TRUE),
+  Ru("<U+212A>", "w", 3, "k", TRUE),                                  \* Kelvin sign: its lower case is the ASCII k
   Ru("<U+0436>", "w", 2, "<U+0436>", TRUE),                           \* Cyrillic zhe
   Ru("<U+0416>", "w", 2, "<U+0436>", TRUE),                           \* its capital
   Ru("<U+00BD>", "w", 2, "<U+00BD>", FALSE),                          \* vulgar fraction one half: IsNumber, not IsDigit
@@ -140,7 +187,7 @@ Palette == <<
   Ru("*", "*", 3, "*", TRUE) >>
 PaletteNames == [i \in DOMAIN Palette |-> Palette[i].n]
 \* one rune per (class, width) - for longer exhaustive strings
-ClassNames == <<"x", "K", "<U+0436>", "<U+65E5>", "<U+10330>", "<SP>", "<U+00A0>", "<U+2014>", "<U+1F600>", "<BAD>", "*">>
+ClassNames == <<"x", "K", "Z", "<U+0436>", "<U+65E5>", "<U+10330>", "<SP>", "<U+00A0>", "<U+2014>", "<U+1F600>", "<BAD>", "*">>
 RuneOf(n) == Palette[CHOOSE i \in DOMAIN Palette : Palette[i].n = n]
 PhraseOf(names) == [i \in DOMAIN names |-> RuneOf(names[i])]
 
@@ -221,6 +268,9 @@ LegacyToks(p, isText) == LTLoop(p, 1, <<>>, <<>>, "", isText)
 PhraseLeaf(f, p) == [op |-> "phrase", f |-> f, rs |-> p, ws |-> Pats(RefLits(p))]
 KwLeaf(f, p) == [op |-> "kw", f |-> f, rs |-> p, ws |-> <<PatOf(RefKw(p))>>]
 InPLeaf(f, ps) == [op |-> "inp", f |-> f, els |-> [i \in DOMAIN ps |-> PhraseLeaf(f, ps[i])]]
+\* (v) a value on a field of declaration decl: read as words on a text field, as one pattern on a keyword / path field
+ValueLeaf(decl, f, p) == IF QueryType(decl, f) = "text" THEN PhraseLeaf(f, p) ELSE KwLeaf(f, p)
+InVLeaf(decl, f, ps) == [op |-> "inp", f |-> f, els |-> [i \in DOMAIN ps |-> ValueLeaf(decl, f, ps[i])]]
 
 \* the random trees also use three-element lists and phrases, and phrases whose separators are multi-byte runes
 Rich3Leaves == RichLeaves \cup {InLeaf("a", <<"y", "x", "z">>), WordsLeaf("t", <<"z", "x", "y">>),
@@ -238,14 +288,15 @@ T(n) == IF n = 0 THEN Leaves
 RECURSIVE Chain(_, _, _)
 Chain(o, f, ws) == IF Len(ws) = 1 THEN Lit(f, ws[1])
                    ELSE Bin(o, Chain(o, f, SubSeq(ws, 1, Len(ws) - 1)), Lit(f, ws[Len(ws)]))
+ValueAst(x) == IF x.op = "phrase" THEN Chain("and", x.f, Pats(SeqQLText(x.rs)))     \* parseSeqQLText + buildAndTree
+               ELSE Lit(x.f, PatOf(SeqQLKw(x.rs)))                                 \* parseSeqQLKeyword
 RECURSIVE OrOfPhrases(_, _)
-OrOfPhrases(f, ps) == LET last == Chain("and", f, Pats(SeqQLText(ps[Len(ps)].rs))) IN
+OrOfPhrases(f, ps) == LET last == ValueAst(ps[Len(ps)]) IN
                       IF Len(ps) = 1 THEN last ELSE Bin("or", OrOfPhrases(f, SubSeq(ps, 1, Len(ps) - 1)), last)
 LeafAst(x) == CASE x.op = "lit" -> x
                 [] x.op = "in" -> Chain("or", x.f, x.ws)
                 [] x.op = "words" -> Chain("and", x.f, x.ws)
-                [] x.op = "phrase" -> Chain("and", x.f, Pats(SeqQLText(x.rs)))      \* parseSeqQLText + buildAndTree
-                [] x.op = "kw" -> Lit(x.f, PatOf(SeqQLKw(x.rs)))                    \* parseSeqQLKeyword
+                [] x.op \in {"phrase", "kw"} -> ValueAst(x)
                 [] x.op = "inp" -> OrOfPhrases(x.f, x.els)                          \* parseFilterIn over parseFulltextSearchFilter
 RECURSIVE Expand(_)
 Expand(x) == IF IsLeaf(x) THEN LeafAst(x)
@@ -398,9 +449,9 @@ SpellStyle(n) == CASE n = "s1" -> [up |-> FALSE, tight |-> FALSE, quote |-> "<DQ
                    [] n = "s3" -> [up |-> FALSE, tight |-> TRUE,  quote |-> "<SQ>", pipe |-> TRUE,  bare |-> TRUE]
                    [] n = "s4" -> [up |-> TRUE,  tight |-> FALSE, quote |-> "<BQ>", pipe |-> FALSE, bare |-> FALSE]
 \* a value written as runes: outside quotes where the style and every rune allow it (and there is something to
-\* search: the legacy parser rejects a bare value without a word); a raw string cannot carry a wildcard or an escape
+\* search: the legacy parser rejects a bare value without a word); a raw string cannot carry a wildcard, an escape or a back quote
 Bareable(p) == p # <<>> /\ (\A i \in DOMAIN p : p[i].bare) /\ (\E i \in DOMAIN p : p[i].c # "s")
-NeedsUnquote(p) == \E i \in DOMAIN p : p[i].c = "*" \/ p[i].n = "<BS>*"
+NeedsUnquote(p) == \E i \in DOMAIN p : p[i].c = "*" \/ p[i].n \in {"<BS>*", "<BQ>"}
 SpellValue(p, sp) == LET names == [i \in DOMAIN p |-> p[i].n]
                          q == IF sp.quote = "<BQ>" /\ NeedsUnquote(p) THEN "<DQ>" ELSE sp.quote IN
                      IF sp.bare /\ Bareable(p) THEN names ELSE <<q>> \o names \o <<q>>
@@ -451,10 +502,13 @@ TruthTable(x, atoms) == [i \in 1..Pow2(Len(atoms)) |-> IF Ev(x, Row(atoms, i - 1
 TruthTableSeq(s, atoms) == TruthTable(RefTree(s), atoms)
 
 \* x: the source tree whose table is required, or NoAst to take the denotation of s itself
-SemCase(s, sp, label, x) ==
+SpellIdx(sn) == CHOOSE i \in 1..4 : <<"s1", "s2", "s3", "s4">>[i] = sn
+DeclAt(k) == DeclNames[(k % Len(DeclNames)) + 1]
+\* d: the name of the declaration the case is parsed under
+SemCase(s, sp, label, x, d) ==
   LET atoms == SetToSeq(AtomsOfSeq(s)) IN
   [kind |-> "sem", label |-> label, q |-> Spell(s, sp), langs |-> SetToSeq(Langs(s, sp)),
-   nilmap |-> NilMappingToo(s), fields |-> FieldTypes, atoms |-> atoms,
+   nilmap |-> NilMappingToo(s), decl |-> DeclOf(d), atoms |-> atoms,
    tt |-> (IF x = NoAst THEN TruthTableSeq(s, atoms) ELSE TruthTable(x, atoms)),
    ast |-> Norm(SeqQLTree(s).ast), allowed |-> <<"ok">>]
 
@@ -473,9 +527,10 @@ AlphaU == <<"f", ":", "x", "and", "(", ")", "in", ",", "*", "<DQ>", "<BS>", "<SP
 Alphabet == IF Mode = "gwalk" THEN AlphaG
             ELSE IF Mode = "phrase" THEN (IF Alpha = "Q" THEN ClassNames ELSE PaletteNames)
             ELSE CASE Alpha = "A" -> AlphaA [] Alpha = "B" -> AlphaB [] Alpha = "S" -> AlphaS [] Alpha = "U" -> AlphaU
-\* how field f is mapped; "multi" = main type text + keyword sub-type, "unmapped" = non-nil mapping
+\* how field f is mapped; "multi" = main type text + keyword sub-type (declared main first), "unmapped" = non-nil mapping
 \* without f, "nil" = nil mapping
-MapTypes == <<"keyword", "text", "path", "exists", "object", "tags", "nested", "multi", "noop", "unmapped", "nil">>
+\* "multi2" = the same two types declared keyword first (main type not the first of the list)
+MapTypes == <<"keyword", "text", "path", "exists", "object", "tags", "nested", "multi", "multi2", "noop", "unmapped", "nil">>
 \* the property: for every input and mapping the parsers return a query or an error
 AllowedOutcomes == <<"ok", "err">>
 
@@ -495,18 +550,30 @@ DeepCase(name, n) == LET sh == CHOOSE x \in DeepShapes : x.name = name IN
                      [kind |-> "deep", shape |-> name, open |-> sh.open, core |-> <<"f", ":", "x">>, close |-> sh.close,
                       n |-> n, maps |-> <<"keyword">>, allowed |-> AllowedOutcomes]
 
-\* the contexts a rune string is put into (Mode "phrase"): the value of text field t alone, under not, in an or,
-\* in an and-not, as first / last element of in(...), between two other phrases, and the value of keyword field a
-CtxNames == {"plain", "not", "or", "andnot", "in1", "in2", "mid", "kw"}
-CtxTree(c, p) == LET L == PhraseLeaf("t", p)  O == Lit("a", "x")  Y == <<RuneOf("y")>> IN
+\* the contexts a rune string is put into (Mode "phrase"), under declaration d: the value of text field t alone, under
+\* not, in an or, in an and-not, as first / middle element of in(...), between two other phrases, the value of keyword
+\* field a, and the value of the additional fields t.keyword / a.text that a multi-type declaration has
+CtxSeq == <<"plain", "not", "or", "andnot", "in1", "in2", "mid", "kw", "sub", "subin">>
+CtxNames == Range(CtxSeq)
+CtxIdx(c) == CHOOSE i \in DOMAIN CtxSeq : CtxSeq[i] = c
+CtxTree(c, p, d) == LET D == DeclOf(d)  L == ValueLeaf(D, "t", p)  O == Lit("a", "x")  Y == <<RuneOf("y")>> IN
   CASE c = "plain"  -> L
     [] c = "not"    -> Not(L)
     [] c = "or"     -> Bin("or", L, O)
     [] c = "andnot" -> Bin("and", O, Not(L))
-    [] c = "in1"    -> InPLeaf("t", <<p, Y>>)
-    [] c = "in2"    -> Bin("and", Not(O), InPLeaf("t", <<Y, p, <<RuneOf("7")>>>>))
-    [] c = "mid"    -> PhraseLeaf("t", <<RuneOf("y"), RuneOf("<U+2014>")>> \o p \o <<RuneOf("<U+00A0>"), RuneOf("7")>>)
-    [] c = "kw"     -> Bin("or", KwLeaf("a", p), Lit("b", "x"))
+    [] c = "in1"    -> InVLeaf(D, "t", <<p, Y>>)
+    [] c = "in2"    -> Bin("and", Not(O), InVLeaf(D, "t", <<Y, p, <<RuneOf("7")>>>>))
+    [] c = "mid"    -> ValueLeaf(D, "t", <<RuneOf("y"), RuneOf("<U+2014>")>> \o p \o <<RuneOf("<U+00A0>"), RuneOf("7")>>)
+    [] c = "kw"     -> Bin("or", ValueLeaf(D, "a", p), Lit("b", "x"))
+    [] c = "sub"    -> Bin("or", ValueLeaf(D, "t.keyword", p), ValueLeaf(D, "a.text", p))
+    [] c = "subin"  -> Not(InVLeaf(D, "a.text", <<p, Y>>))
+\* a context that cannot be written under d (the additional fields exist in multi-type declarations only), and one whose
+\* reading is not part of the property (what an invalid byte inside a keyword value is lower-cased to)
+CtxApplies(c, names, d) == /\ (c \in {"sub", "subin"} => d # "single")
+                           /\ (c \in {"kw", "sub"} => ~\E i \in DOMAIN names : names[i] = "<BAD>")
+RuneIdx(n) == CHOOSE i \in DOMAIN Palette : Palette[i].n = n
+RECURSIVE SumIdx(_)
+SumIdx(names) == IF names = <<>> THEN 0 ELSE RuneIdx(names[1]) + SumIdx(Tail(names))
 
 GLx(n) == CASE n = "A" -> LeafLx(Lit("a", "x")) [] n = "B" -> LeafLx(Lit("b", "x")) [] OTHER -> Kw(n)
 GSeq(p) == [i \in DOMAIN p |-> GLx(p[i])]
@@ -594,11 +661,14 @@ ValueSplitsIntoWords ==
                      /\ SeqQLText(p) = RefLits(p)
                      /\ SeqQLKw(p) = RefKw(p)
                      /\ (NoDoubleWild(p) => /\ LegacyToks(p, TRUE) = RefLits(p)
-                                            /\ LegacyToks(p, FALSE) = <<RefKw(p)>>)
+                                            /\ LegacyToks(p, FALSE) = <<RefKw(p)>>
+                                            \* the two languages return the same case-folded terms
+                                            /\ LegacyToks(p, TRUE) = SeqQLText(p)
+                                            /\ LegacyToks(p, FALSE) = <<SeqQLKw(p)>>)
 \* ... and the written expression around it keeps its meaning through both accumulator parsers and propagateNot
 PhraseContextsKeepMeaning ==
-  Mode = "phrase" => \A c \in Contexts :
-                       LET x == CtxTree(c, PhraseOf(pre))  s == Render(x, "min")  e == SeqQLTree(s) IN
+  Mode = "phrase" => \A c \in Contexts : \A di \in DOMAIN DeclNames : CtxApplies(c, pre, DeclNames[di]) =>
+                       LET x == CtxTree(c, PhraseOf(pre), DeclNames[di])  s == Render(x, "min")  e == SeqQLTree(s) IN
                        /\ WF(s) /\ e.ok /\ LegacyTree(s) = e
                        /\ SameMeaning(e.ast, x, AtomsOf(x))
                        /\ SameMeaning(Norm(e.ast), x, AtomsOf(x))
@@ -609,18 +679,21 @@ PhraseContextsKeepMeaning ==
 \* ======================================================================
 Emit ==
   CASE Mode = "tree" ->
-         (sty.spell = "none" \/ PrintT(<<"CASE", ToJson(SemCase(Rendered, SpellStyle(sty.spell), sty.paren, tr))>>))
+         (sty.spell = "none" \/ PrintT(<<"CASE", ToJson(SemCase(Rendered, SpellStyle(sty.spell), sty.paren, tr,
+                                                                       DeclAt(Len(Rendered) + SpellIdx(sty.spell))))>>))
     [] Mode = "randtree" ->
-         (tr = NoTree \/ PrintT(<<"CASE", ToJson(SemCase(Rendered, SpellStyle(sty.spell), sty.paren, tr))>>))
+         (tr = NoTree \/ PrintT(<<"CASE", ToJson(SemCase(Rendered, SpellStyle(sty.spell), sty.paren, tr,
+                                                                  DeclAt(Len(Rendered) + SpellIdx(sty.spell))))>>))
     [] Mode = "gwalk" ->
          (pre = <<>> \/ ~WF(GSeq(pre))
-            \/ PrintT(<<"CASE", ToJson(SemCase(GSeq(pre), SpellStyle(IF Len(pre) % 2 = 0 THEN "s1" ELSE "s2"), "gwalk", NoAst))>>))
+            \/ PrintT(<<"CASE", ToJson(SemCase(GSeq(pre), SpellStyle(IF Len(pre) % 2 = 0 THEN "s1" ELSE "s2"), "gwalk", NoAst, DeclAt(Len(pre))))>>))
     [] Mode = "phrase" ->
-         \* (what an invalid byte inside a keyword value is lower-cased to is not part of the property: not emitted)
+         \* every context x spelling, the declarations rotating with the spelling and the string
          \A c \in Contexts : \A sn \in SpellNames :
-            LET x == CtxTree(c, PhraseOf(pre)) IN
-            \/ c = "kw" /\ \E i \in DOMAIN pre : pre[i] = "<BAD>"
-            \/ PrintT(<<"CASE", ToJson(SemCase(Render(x, "min"), SpellStyle(sn), c, x))>>)
+            LET d == DeclAt(SpellIdx(sn) + CtxIdx(c) + SumIdx(pre))
+                x == CtxTree(c, PhraseOf(pre), d) IN
+            \/ ~CtxApplies(c, pre, d)
+            \/ PrintT(<<"CASE", ToJson(SemCase(Render(x, "min"), SpellStyle(sn), c, x, d))>>)
     [] Mode = "walk" ->
          PrintT(<<"CASE", ToJson(TotCase(pre))>>)
     [] Mode = "deep" ->
